@@ -14,6 +14,7 @@ func init() {
 		explanation: "Decided (structural, for every decodable request message): " +
 			"C14.wirenil — nil-ability of protobuf message pointers is computed from the generated structs (singular message-typed fields of messages may be nil after decoding; oneof wrapper members and repeated elements are allocated by the decoder) and propagated through parameters to a fixpoint over module call sites; in everything reachable from the gRPC handler every field access through a possibly-nil message pointer is dominated by a nil test (generated nil-safe getters count as guards); " +
 			"C14.exprnil — the protobuf-to-expression conversion never returns a nil Expression together with a nil error (every successful return yields a freshly allocated node, and the default case of the oneof switch is an error), and a converted operand is used only where its conversion error is known to be nil, so Execute never calls a method on a nil Expression that came from the wire; " +
+			"C14.bounds — every slice indexing in the evaluation code reachable from Execute is a range-loop index or is dominated by a length test (operand lists can be empty on the wire); " +
 			"C14.errors — conversion and execution errors (unknown columns included) are returned from the handler as RPC errors, with a nil response. " +
 			"NOT decided: stack depth for deeply nested expressions (bounded by protobuf-go's recursion limit and gRPC's message size limit, trusted); that the server keeps answering correctly afterwards beyond the read lock being released by its defer (C04).",
 		assumptions: []string{"protobuf-go allocates oneof wrapper members and repeated message elements when decoding", "grpc-go does not recover handler panics (so the rules are necessary)", "go/ssa, dominance"},
@@ -199,7 +200,10 @@ func runC14(c *Ctx) {
 		c.r.undecided("C14.exprnil", safeFname(te), "no successful return")
 	}
 	// the expression a conversion yields is used (stored as operand / as the query's expression) only where its error is known to be nil
-	for _, fn := range []*ssa.Function{c.a.ToExpr, c.a.ToQuery} {
+	for _, fn := range c.w.ModFuncs {
+		if c.w.pkgPathOf(fn) != pkgConvert {
+			continue
+		}
 		k := 0
 		allInstrs(fn, func(i ssa.Instruction) {
 			call, ok := i.(*ssa.Call)
@@ -219,6 +223,40 @@ func runC14(c *Ctx) {
 			}
 		})
 	}
+	// ---- bounds: operand lists may be empty on the wire (an AND/OR without operands decodes fine): every slice index in
+	// the evaluation code must be covered by a length test or be a range-loop index
+	ere := c.w.reach(c.a.Execute)
+	nIdx := 0
+	for _, fn := range ere.sorted() {
+		if c.w.pkgPathOf(fn) != pkgRoot {
+			continue
+		}
+		if isSortLess(fn) {
+			continue // indices are supplied by package sort for the slice being sorted (trusted)
+		}
+		allInstrs(fn, func(i ssa.Instruction) {
+			ia, ok := i.(*ssa.IndexAddr)
+			if !ok {
+				return
+			}
+			if _, isSlice := ia.X.Type().Underlying().(*types.Slice); !isSlice {
+				return
+			}
+			nIdx++
+			key := fmt.Sprintf("%s: index#%d", safeFname(fn), nIdx)
+			okB, why := false, ""
+			if k, isK := constInt(ia.Index); isK {
+				okB = k >= 0 && lenAtLeast(ia.X, k+1, ia)
+				why = "constant index without a dominating length test"
+			} else {
+				okB, why = c.fc.indexInBounds(ia.X, ia.Index, ia)
+			}
+			c.r.check(okB, "C14.bounds", key, "index covered by a length test / range loop",
+				"a slice is indexed during query evaluation without a bounds guarantee ("+why+"): an operator with an empty operand list, which decodes fine from the wire, makes the handler panic", c.w.ipos(i))
+		})
+	}
+	c.r.Stats["evaluation_slice_indexings"] = nIdx
+
 	// ---- errors in the handler
 	sq := c.a.ServerQuery
 	n := 0
@@ -241,4 +279,32 @@ func runC14(c *Ctx) {
 		}
 	})
 	c.r.expect("C14.errors", 2)
+}
+
+// isSortLess: fn is a function literal passed as the less function to sort.Slice / sort.SliceStable.
+func isSortLess(fn *ssa.Function) bool {
+	parent := fn.Parent()
+	if parent == nil {
+		return false
+	}
+	found := false
+	allInstrs(parent, func(i ssa.Instruction) {
+		cc := callCommon(i)
+		if cc == nil {
+			return
+		}
+		n := calleeName(cc)
+		if n != "sort.Slice" && n != "sort.SliceStable" && n != "slices.SortFunc" {
+			return
+		}
+		for _, a := range cc.Args {
+			if mc, ok := a.(*ssa.MakeClosure); ok && mc.Fn == fn {
+				found = true
+			}
+			if f, ok := a.(*ssa.Function); ok && f == fn {
+				found = true
+			}
+		}
+	})
+	return found
 }
